@@ -598,7 +598,8 @@ def main():
         'wall_s': round(time.time() - t0, 2),
         'violations': len(new_fail) + len(new_w),
     }
-    if not (os.environ.get('VERIF_NOEVIDENCE') or os.environ.get('VERIF_SKIP_UNITS') or os.environ.get('VERIF_ONLY_UNITS')):
+    # evidence describes /repo itself: runs against a scratch copy / worktree (VERIF_REPO) or with a unit filter never write it
+    if not (os.environ.get('VERIF_NOEVIDENCE') or os.environ.get('VERIF_SKIP_UNITS') or os.environ.get('VERIF_ONLY_UNITS') or os.path.realpath(vlib.REPO) != '/repo'):
         os.makedirs(os.path.join(VERIF, 'evidence'), exist_ok=True)
         json.dump(ev, open(os.path.join(VERIF, 'evidence', prop + '.json'), 'w'), indent=1)
 
